@@ -688,6 +688,9 @@ Loop:
 			if seenTypeUrl {
 				return d.newError(tok.Pos(), "conflict with type_url field")
 			}
+			if seenValue {
+				return d.newError(tok.Pos(), "conflict with value field")
+			}
 			typeURL = tok.TypeName()
 			var err error
 			bValue, err = d.unmarshalExpandedAny(typeURL, tok.Pos())
